@@ -54,6 +54,8 @@ ReadSeq(ref) ==
       \* operand of its comparison; programs end with `int 1; return`, which ignores what lies below)
       [] ref.kind = "swabs"    -> << IntC(ref.i), IntC((ref.i + 1) % 3), Op("swap"), Gtxns(ref.f) >>
       [] ref.kind = "swrel"    -> << IntC(ref.i), Txn("GroupIndex"), IntC(1), Op("+"), Op("swap"), Gtxns(ref.f) >>
+      \* the absolute index 1 + ref.i computed from two constants
+      [] ref.kind = "addc"     -> << IntC(1), IntC(ref.i), Op("+"), Gtxns(ref.f) >>
 
 R(kind, f, i) == [kind |-> kind, f |-> f, i |-> i]
 
@@ -306,8 +308,8 @@ F2SentinelDigits ==
 -----------------------------------------------------------------------------
 (* Family f3: reads of other group members, with size / index checks *)
 F3Fields == << "RekeyTo", "Fee", "TypeEnum", "CloseRemainderTo", "OnCompletion", "Sender", "AssetCloseTo" >>
-F3Kinds  == << "gtxn", "gtxns", "self", "relp", "relps", "relm", "relms", "swabs", "swrel" >>
-AbsKinds == {"gtxn", "gtxns", "swabs", "swrel"}
+F3Kinds  == << "gtxn", "gtxns", "self", "relp", "relps", "relm", "relms", "swabs", "swrel", "addc" >>
+AbsKinds == {"gtxn", "gtxns", "swabs", "swrel", "addc"}
 F3Idx(kind, d) == IF kind \in AbsKinds THEN << 0, 1, 2, 15 >>[1 + d] ELSE << 1, 2, 1, 2 >>[1 + d]
 F3Guards == << "none", "size_eq", "size_le", "index_eq", "size_and_index", "index_ne" >>
 GuardSeq(g, i) ==
@@ -327,6 +329,8 @@ F3Case(fam, k, d) ==
         ref  == R(kind, f, i)
         cmp  == MkCmp(ref, d[4], IF d[5] = 0 \/ kind \in {"swabs", "swrel"} THEN "L" ELSE "R", 1 + d[6], 0)
         g    == F3Guards[1 + d[7]]
+        \* (no second member for the kinds that already involve a decoy position: the input space would explode)
+        second == d[10] = 1 /\ kind \notin {"swabs", "swrel", "addc"}
         cons == Consumers[1 + d[8]]
         j    == 1 + d[9]
         \* optionally a second read of another member, so that up to three members are involved
@@ -336,7 +340,7 @@ F3Case(fam, k, d) ==
         r2   == Hole2Region(j)
         K1   == IF j = 32 THEN GuardSeq(g, IF kind \in AbsKinds THEN i ELSE 1) \o CondSeq(cmp) \o << Bnz("up") >>
                 ELSE GuardSeq(g, IF kind \in AbsKinds THEN i ELSE 1) \o Stmt(cmp, cons, "a", r1)
-                     \o (IF d[10] = 1 THEN Stmt(cmp2, cons, "c", r1) ELSE << >>)
+                     \o (IF second THEN Stmt(cmp2, cons, "c", r1) ELSE << >>)
         K2   == Stmt(cmp, cons, "b", r2)
         tm   == IF j = 32 THEN << >> ELSE IF r1 = "m" \/ (SkelUsesK2(j) /\ r2 = "m") THEN FailTail(cons, "m") ELSE << >>
         ts   == IF r1 = "s" \/ (SkelUsesK2(j) /\ r2 = "s") THEN FailTail(cons, "s") ELSE << >>
@@ -344,15 +348,15 @@ F3Case(fam, k, d) ==
         ver  == MaxOf({MinVersion(j), 4})
         body == (IF app THEN AppPreamble ELSE << >>) \o Skel(j, K1, K2, tm, ts)
     IN  [fam |-> fam, k |-> k,
-         desc |-> [ref |-> ref, op |-> cmp.op, side |-> cmp.side, c |-> cmp.c, guard |-> g, second |-> d[10],
+         desc |-> [ref |-> ref, op |-> cmp.op, side |-> cmp.side, c |-> cmp.c, guard |-> g, second |-> IF second THEN 1 ELSE 0,
                    cons |-> cons, skel |-> j, app |-> app, ver |-> ver],
          prog |-> << Pragma(ver) >> \o body]
 
-F3Radix == << 7, 9, 4, 6, 2, 6, 6, 6, NSkel, 2, 2 >>
+F3Radix == << 7, 10, 4, 6, 2, 6, 6, 6, NSkel, 2, 2 >>
 F3Random(k) == F3Case("f3", k, [i \in 1..Len(F3Radix) |-> Rnd(k, 3, i, F3Radix[i])])
 F3SentinelDigits ==
-    { << f, kd, ix, 0, 0, 0, g, 0, 0, 0, 0 >> : f \in 0..2, kd \in 0..8, ix \in 0..1, g \in 0..5 }
-    \cup { << 1, kd, 0, 3, s, 1, g, 0, 0, 0, 0 >> : kd \in 0..8, s \in 0..1, g \in {0, 4} }
+    { << f, kd, ix, 0, 0, 0, g, 0, 0, 0, 0 >> : f \in 0..2, kd \in 0..9, ix \in 0..1, g \in 0..5 }
+    \cup { << 1, kd, 0, 3, s, 1, g, 0, 0, 0, 0 >> : kd \in 0..9, s \in 0..1, g \in {0, 4} }
     \* an application that checks another member's OnCompletion / Sender
     \cup { << f, kd, 0, 0, 0, 0, 0, 0, 0, 0, 1 >> : f \in {4, 5}, kd \in 0..1 }
     \* absolute-index reads only inside a loop body / only in a callee (group-size-check)
